@@ -330,6 +330,13 @@ pub fn base_alphabet() -> Vec<Tok> {
     ]
 }
 
+/// Alphabet for C13: base + `true`, so that `!`, `&&` have an operand they succeed on.
+pub fn c13_alphabet() -> Vec<Tok> {
+    let mut v = base_alphabet();
+    v.push(Tok::Bool(true));
+    v
+}
+
 /// Extended alphabet: base + `"s" true || < %= b`.
 pub fn extended_alphabet() -> Vec<Tok> {
     use Tok::*;
